@@ -7,6 +7,8 @@ package transfer
 // committed to the repository).
 
 import (
+	"io"
+
 	"github.com/sheerbytes/sheerbytes/pkg/manifest"
 )
 
@@ -93,4 +95,87 @@ func (v *VerifSendState) Snap() VerifSendSnap {
 	v.s.mu.Lock()
 	defer v.s.mu.Unlock()
 	return VerifSendSnap{v.s.nextChunk, v.s.inFlight, v.s.scheduleDone, v.s.endSent, v.s.verifyPending, v.s.resendPending, v.s.plan != nil}
+}
+
+// ---- control protocol (C15, C18, C04) ---------------------------------------------
+
+type verifRW struct {
+	r io.Reader
+	w io.Writer
+}
+
+func (s verifRW) Read(p []byte) (int, error) {
+	if s.r == nil {
+		return 0, io.EOF
+	}
+	return s.r.Read(p)
+}
+func (s verifRW) Write(p []byte) (int, error) {
+	if s.w == nil {
+		return len(p), nil
+	}
+	return s.w.Write(p)
+}
+func (s verifRW) Close() error { return nil }
+
+const (
+	VerifTypeFileBegin      = controlTypeFileBegin
+	VerifTypeCredit         = controlTypeCredit
+	VerifTypeFileEnd        = controlTypeFileEnd
+	VerifTypeFileDone       = controlTypeFileDone
+	VerifTypeFileResumeInfo = controlTypeFileResumeInfo
+	VerifTypeResumeRequest  = controlTypeResumeRequest
+	VerifTypeCreditBatch    = controlTypeCreditBatch
+	VerifTypeDataStreams    = controlTypeDataStreams
+	VerifTypeEnd            = controlTypeEnd
+	VerifMaxRelPath         = maxRelPathLength
+)
+
+func VerifReadControlMessage(r io.Reader) (byte, any, error) { return readControlMessage(verifRW{r: r}) }
+func VerifReadControlHeader(r io.Reader) (manifest.Manifest, error) {
+	return readControlHeader(verifRW{r: r})
+}
+func VerifWriteControlHeader(w io.Writer, m manifest.Manifest) error {
+	return writeControlHeader(verifRW{w: w}, m)
+}
+
+// VerifWriteRecord encodes one control record with the real encoder.
+func VerifWriteRecord(w io.Writer, msg any) error {
+	s := verifRW{w: w}
+	switch m := msg.(type) {
+	case FileBegin:
+		return writeFileBegin(s, m)
+	case Credit:
+		return writeCredit(s, m)
+	case CreditBatch:
+		return writeCreditBatch(s, m)
+	case FileEnd:
+		return writeFileEnd(s, m)
+	case FileDone:
+		return writeFileDone(s, m)
+	case FileResumeInfo:
+		return writeFileResumeInfo(s, m)
+	case ResumeRequest:
+		return writeResumeRequest(s, m)
+	case DataStreams:
+		return writeDataStreams(s, m)
+	case nil:
+		return writeControlEnd(s)
+	}
+	return io.ErrUnexpectedEOF
+}
+
+func VerifValidateRelPath(p string) error { return validateRelPath(p) }
+func VerifFileKey(item manifest.FileItem) uint64 { return fileKeyForItem(item) }
+func VerifSidecarID(item manifest.FileItem) string { return sidecarIdentifier(item) }
+
+// VerifSidecarBits returns the set chunk indices of a loaded sidecar.
+func VerifSidecarBits(sc *Sidecar) []int {
+	var out []int
+	for i := 0; i < int(sc.TotalChunks); i++ {
+		if sc.bitmap.Get(i) {
+			out = append(out, i)
+		}
+	}
+	return out
 }
